@@ -545,11 +545,8 @@ pub fn c14(ctx: &Ctx) {
     ctx.set_rule("U_small plus one packet with a 2-byte and one with a 3-byte header, EVERY fault position 0..=len, kinds {ConnectionReset, ConnectionAborted, BrokenPipe, TimedOut, PermissionDenied, WouldBlock, Interrupted, InvalidData, Other, UnexpectedEof} plus end-of-stream; delivery before the fault whole and byte-wise. Read side: decode_async, Header::decode_async, poll decoder (future kept / re-created). Write side: encode_async (error kinds, zero-length write -> WriteZero) and Encodable::encode into io::Write (error kinds, Ok(0) -> WriteZero, Interrupted retried to the full encoding); the sink must hold exactly the first `pos` bytes of encode(). Conversions: 38 io::ErrorKind values through From<io::Error> for Error/ErrorV5 and back, every protocol error to InvalidData. Non-trivial = (packet, position, kind) triples with 0 < position < len");
     fn fam<F: Fam>(ctx: &Ctx) {
         let mut hosts: Vec<Ast> = u_small(F::FAMILY);
-        if !ctx.thorough() {
-            // every packet type and form once, plus every third of the rest
-            let tiny = crate::checks::values::u_tiny(F::FAMILY);
-            hosts = tiny.into_iter().chain(hosts.into_iter().step_by(3)).collect();
-        }
+        let _ = ctx.thorough();
+        hosts.extend(crate::checks::values::u_tiny(F::FAMILY));
         hosts.extend(gen::u_size(F::FAMILY, &[], &[128, 200, 16384]).into_iter().filter(|a| matches!(a, Ast::Publish { qos: 0, .. })));
         ctx.count(&format!("{}_packets", F::NAME), hosts.len() as u64);
         let triples = std::sync::atomic::AtomicU64::new(0);
